@@ -12,7 +12,7 @@ CONTENTS = {
         "TEXT": "g18/g3", "X": {"A": "NAME:bold", "B": "YELLOW/BLUE"},
         "GHIST": {"REPO": "RED", "HASH": "g7:bold", "VERSION": "(0,5,0)", "VER_NOT_MERGED": "BLUE:blink", "COMMIT_NAME": "WHITE/RED"}},
 }
-KINDS = ['pp', 'table', 'table2', 'record', 'help', 'leadblank', 'ghist', 'table4', 'relimit', 'retitle']
+KINDS = ['pp', 'table', 'table2', 'record', 'help', 'leadblank', 'ghist', 'table4', 'relimit', 'retitle', 'table5', 'table6']
 
 
 _CONF_SRC = {}        # id(configuration made by make_conf) -> (content, no_color): lets a mode build an equal temporary one
@@ -43,6 +43,15 @@ class Objects:
         # column titles with several lines, some of them not strings (a number, None, True)
         self.table4 = PPTable(recs[:3], fmt='id:6,name:8,st:9', fields=['id', 'name', 'st', 'st2'], fields_types={'st': self.enum},
                               fields_titles={'id': ('id\nnumber', 555), 'name': ('name', None, True), 'st': ('state\nof it', 7.5)})
+        # two tables whose first column uses ONE general FieldType object; their values are equal as Python objects
+        # (1 == True == 1.0, Decimal('1234.5') == Decimal('1234.500000')) but print differently
+        from ak.ppobj import FieldType
+        from decimal import Decimal
+        self.plain_ft = FieldType()
+        self.table5 = PPTable([(1, 'x'), (22, 'y'), (Decimal('1234.5'), 'z'), (0, 'u')], fmt='v:1-12,w:3', fields=['v', 'w'],
+                              fields_types={'v': self.plain_ft})
+        self.table6 = PPTable([(True, 'x'), (1.0, 'y'), (Decimal('1234.500000'), 'z'), (False, 'u')], fmt='v:1-12,w:3', fields=['v', 'w'],
+                              fields_types={'v': self.plain_ft})
         self.recs = recs
         self.recfmt = PPRecordFmt('id:5,st/full:10,st2/name:6,name:8', fields=['id', 'name', 'st', 'st2'],
                                   fields_types={'st': self.enum, 'st2': self.enum})
@@ -162,6 +171,8 @@ def render(objs, kind, conf, nocolor, mode):
     def start(conf, nocolor):
         if kind == 'table4':
             return objs.table4.ch_text(colors_conf=conf, no_color=nocolor)
+        if kind in ('table5', 'table6'):
+            return getattr(objs, kind).ch_text(colors_conf=conf, no_color=nocolor)
         if kind == 'pp':
             return objs.pp(objs.value, colors_conf=conf, no_color=nocolor)
         if kind == 'table':
@@ -173,7 +184,8 @@ def render(objs, kind, conf, nocolor, mode):
         return objs.leadblank.ch_text(colors_conf=conf, no_color=nocolor)
     if mode == 'palobj':
         # the colours are given as a ready palette object (made for the configuration) plus no_color
-        target = {'pp': objs.pp, 'table': objs.table, 'table2': objs.table2, 'table4': objs.table4, 'ghist': objs.ghist}.get(kind, objs.leadblank)
+        target = {'pp': objs.pp, 'table': objs.table, 'table2': objs.table2, 'table4': objs.table4, 'ghist': objs.ghist,
+                  'table5': objs.table5, 'table6': objs.table6}.get(kind, objs.leadblank)
         pal = type(target).PALETTE_CLASS(conf)
         if kind == 'pp':
             return str(objs.pp(objs.value, palette=pal, no_color=nocolor))
